@@ -288,6 +288,7 @@ def main(argv=None):
         return {"histories": sum(r.get("programs", 0) for r in results if r),
                 "ended_in_InvalidBackprop": sum(r.get("invalid_backprop", 0) for r in results if r),
                 "a_history_statement_raised_loudly_no_claim": sum(r.get("history_statement_raised", 0) for r in results if r),
+                "update_through_a_view_from_before_a_cleared_graph_not_shared_no_claim": sum(r.get("cross_epoch_update_not_shared_no_claim", 0) for r in results if r),
                 "examples_of_those": [e for r in results if r for e in r.get("history_statement_raised_examples", [])][:3]}
 
     describe = dict(
